@@ -24,6 +24,7 @@ type histJob struct {
 	id   int
 	spec *Spec
 	res  *Result
+	prev *Spec // pairs: the request served just before on the same goroutine (same pooled filter-chain object)
 }
 
 // run jobs concurrently (each history is mostly sleeping)
@@ -173,9 +174,10 @@ func c03Finder(run *Run, j *histJob) {
 		sig := "C03:silence"
 		what := "no reply although the client did not disconnect and no filter terminated the stream"
 		switch {
-		case sp.Tag == "upfilter-reset-after-terminate" && r.Done:
+		case r.Done && r.Gauge != 0 && countNew(r) < 10:
+			// the worker returned, no reply, stream not cleaned, and the outer loop was not exhausted: the only other way out
 			sig = "C03:silence:upstream-reset-seen-in-upfilter-after-terminate"
-			what = "TerminateStream, then an upstream reset while the send filters run: processError of phase UpFilter returns (End, ErrExit), the worker returns without reply and without cleaning the stream"
+			what = "a local reply is pending (TerminateStream, or the error reply for an upstream reset) and a further upstream reset signal (remote reset, or the global timer expiring) is seen by processError of phase UpFilter: it returns (End, ErrExit), the worker returns without reply and without cleaning the stream"
 		case sp.Tag == "global-timer-lost-before-retry" && !r.Done:
 			sig = "C03:hang:global-timer-expired-unheard-before-retry"
 			what = "the global timer expires while a 5xx response is being processed (CAS lost), the response is then retried: the new attempt has no global timer and a silent upstream hangs the request"
@@ -198,6 +200,16 @@ func c03Finder(run *Run, j *histJob) {
 	if (ri.Complete || r.Done) && (r.Gauge != 0 || r.Active != 0) && !(r.Done && !ri.Complete && !explained) {
 		run.Fail("C03:not-cleaned", fmt.Sprintf("exchange over but the stream is not cleaned: active gauge %+d, active streams %d", r.Gauge, r.Active), replay)
 	}
+}
+
+// TerminateStream returned true in this run
+func terminateDelivered(r *Result) bool {
+	for _, x := range r.Rec {
+		if x.Kind == "ev.end" && x.Aux == "delivered" && r.Spec.Events[x.K].Kind == "terminate" {
+			return true
+		}
+	}
+	return false
 }
 
 // a new attempt was started after the moment the global timer of the request must have fired
